@@ -364,6 +364,10 @@ class DeduplicateDecorator(AsyncDecorator):
             task = self.tasks[cache_key]
         except KeyError:
             task = self.fn.asynq(*args, **kwargs)
+            if task.is_computed():
+                # e.g. an async_proxy that handed back a finished future: nothing is in
+                # flight, so there is nothing to share (and no completion to wait for)
+                return task
 
             def callback(task):
                 # only forget our own entry: after dirty() a newer task may have been
@@ -375,7 +379,7 @@ class DeduplicateDecorator(AsyncDecorator):
             task.on_computed.subscribe(callback)
             return task
         else:
-            if task.running:
+            if getattr(task, "running", False):
                 # If the task is currently executing, don't return it; asynq
                 # will try to send another value into the generator and fail
                 # with "ValueError: generator is already executing"
